@@ -137,6 +137,33 @@ pub fn generate(verif_seed: u64, idx: u64, thorough: bool) -> Scenario {
         let expr = g.gen(ty, d);
         scn.rules.push(RuleSpec { name: names[i].clone(), expr });
     }
+    // twin rules now and then: an identical copy of an earlier rule, or two rules that are
+    // re-associations of one another over the bitwise operators (they differ in structure and value
+    // but could easily be confused by anything that identifies an expression by a rendering)
+    if !huge && g.rng.chance(1, 6) && scn.rules.len() < 14 {
+        use crate::xexpr::{BinOp, X};
+        if !scn.rules.is_empty() && g.rng.chance(1, 3) {
+            let j = g.rng.usize(scn.rules.len());
+            let copy = scn.rules[j].expr.clone();
+            scn.rules.push(RuleSpec { name: format!("twin of {}", scn.rules[j].name), expr: copy });
+        } else {
+            let ops = [BinOp::BitAnd, BinOp::BitOr, BinOp::BitXor];
+            let (o1, o2) = (*g.rng.pick(&ops), *g.rng.pick(&ops));
+            let leaf = |g: &mut Gen| -> X {
+                match g.rng.below(3) {
+                    0 => X::Ref("x".into()),
+                    1 => X::Ref("y".into()),
+                    _ => X::int(g.rng.range(1, 7)),
+                }
+            };
+            let (a, b, c3) = (leaf(&mut g), leaf(&mut g), leaf(&mut g));
+            let left = X::bin(o1, X::bin(o2, a.clone(), b.clone()), c3.clone());
+            let right = X::bin(o2, a, X::bin(o1, b, c3));
+            let at = g.rng.usize(scn.rules.len() + 1);
+            scn.rules.insert(at, RuleSpec { name: "assoc left".into(), expr: left });
+            scn.rules.push(RuleSpec { name: "assoc right".into(), expr: right });
+        }
+    }
     // half of the functions are cacheable: the shared cache is exercised across a failing neighbour
     let cache_mask = g.rng.next_u64();
     let cacheable = move |t: Ty| (cache_mask >> (t as u32)) & 1 == 1;
